@@ -633,6 +633,8 @@ fn zone_result_helper(
             for zrs in records.values() {
                 rrs.append(&mut zrs.iter().map(|zr| zr.to_rr(name)).collect());
             }
+            #[cfg(resolved_verif)]
+            simseam::order::canonical(&mut rrs, "zone.any");
             ZoneResult::Answer { rrs }
         }
         QueryType::Record(rtype) => ZoneResult::Answer {
